@@ -64,6 +64,16 @@ def runOpConvert (op : String) (args : List String) : String :=
       | some r => encReport r
       | none => "OUTSIDE"
     | _, _, _ => bad
+  | "convert_words2", [srcfmt, words, destfmt, dwords, enc, calls, src] =>
+    -- both option lists as words (TT.runWords2: outOptsOf for `--dest-opts`)
+    match decSource srcfmt src, destFmt? destfmt, decWords words, decWords dwords with
+    | some s, some f, some ws, some dws =>
+      let cs := if calls == "" then [] else (calls.splitOn ";").map parseTCall
+      match TT.runWords2 (cs.map fun c => applyT c) f dws (if enc == "n" then none else decS enc) ws s with
+      | some (.ok t) => encS t
+      | some (.error e) => encErr e
+      | none => "OUTSIDE"
+    | _, _, _, _ => bad
   | "convert_words", [srcfmt, words, destfmt, destopts, enc, src] =>
     match decSource srcfmt src, destFmt? destfmt, decWords words with
     | some s, some f, some ws =>
